@@ -184,7 +184,186 @@ def check_C05(rep, prog, tier):
         rep.add_obligation(name, 'holds', st)
 
 
-CHECKS = {'C11': check_C11, 'C12': check_C12, 'C08': check_C08, 'C05': check_C05}
+def _bcases(shapes, modes, **kw):
+    out = []
+    for kinds, classes in shapes:
+        for m in modes:
+            d = dict(kinds=kinds, classes=list(classes), mode=m)
+            d.update(kw)
+            out.append(d)
+    return out
+
+
+def check_C03(rep, prog, tier):
+    from . import backup_checks as BC
+    rep.level = 'fault_enumeration'
+    dl = tier_deadline(tier, 540, 3000)
+    shapes = [('F', [1]), ('FF', [1, 2]), ('DS', [0, 0])] if tier == 'quick' else \
+        [('F', [1]), ('FF', [1, 2]), ('FF', [1, 1]), ('DS', [0, 0]), ('FDF', [1, 0, 2]), ('FFF', [1, 2, 3])]
+    cases = _bcases(shapes, ['crash', 'empty_crash'])
+    cases += _bcases([('FF', [1, 2])] if tier == 'quick' else [('FF', [1, 2]), ('FS', [1, 0])], ['crash'], prior='same')
+    rep.bounds = {'cases': [BC.case_name(c) for c in cases],
+                  'crash_points': 'before every storage step k of the backup, and inside every write (empty file left); k solver-chosen',
+                  'follow_up': 'after each crash: list every version with the real Stitch, run the backup again, check it'}
+    rep.assumptions += BC.COMMON_ASSUMPTIONS + ['storage operations are atomic except that a write may leave an empty file']
+    BC.run_cases(rep, prog, cases, dl, 'C03', 'a backup killed at any storage step leaves a consistent, listable, resumable archive')
+
+
+def check_C04(rep, prog, tier):
+    from . import backup_checks as BC
+    rep.level = 'fault_enumeration'
+    dl = tier_deadline(tier, 540, 3000)
+    shapes = [('F', [1]), ('FF', [1, 2]), ('FF', [1, 1])] if tier == 'quick' else \
+        [('F', [1]), ('FF', [1, 2]), ('FF', [1, 1]), ('FSF', [1, 0, 1]), ('FFF', [1, 2, 3]), ('FFF', [1, 2, 1])]
+    cases = _bcases(shapes, ['fault'])
+    cases += _bcases([('F', [1])] if tier == 'quick' else [('FF', [1, 2])], ['fault'], prior='same')
+    rep.bounds = {'cases': [BC.case_name(c) for c in cases],
+                  'faults': 'exactly one storage step k fails with one of NotFound/Other/PermissionDenied/AlreadyExists; k and kind solver-chosen'}
+    rep.assumptions += BC.COMMON_ASSUMPTIONS + ['single fault per run (multi-fault sequences are outside the claim)']
+    BC.run_cases(rep, prog, cases, dl, 'C04', 'any single failing storage step: no panic, no wrong/dangling content recorded, success only if complete')
+
+
+def check_C13(rep, prog, tier):
+    from . import backup_checks as BC
+    dl = tier_deadline(tier, 420, 3000)
+    shapes = [('F', [1]), ('FF', [1, 2]), ('FF', [1, 1]), ('DSF', [0, 0, 1]), ('FFF', [1, 2, 3])] if tier == 'quick' else \
+        [('F', [1]), ('FF', [1, 2]), ('FF', [1, 1]), ('DSF', [0, 0, 1]), ('FFF', [1, 2, 3]), ('FFF', [1, 1, 2]), ('SFDF', [0, 1, 0, 2]),
+         ('FFFF', [1, 2, 3, 4])]
+    cases = _bcases(shapes, ['none']) + _bcases([('FF', [1, 2])], ['none'], prior='same') + \
+        _bcases([('FS', [1, 0])], ['none'], sym_meta=True)
+    # nested names with bytes below and above '/', files small enough to be combined (so that the hunk sort matters)
+    nested = ['/a', '/a b', '/a.d', '/a/sub', '/a/sub/f', '/a b/g', '/a.d/h']
+    for opts in ((64, 16, 1000), (64, 16, 3), (4, 16, 1000)):
+        cases.append(dict(kinds='DDDDFFF', classes=[0, 0, 0, 0, 1, 2, 3], mode='none', paths=nested, sizes=[0, 0, 0, 0, 5, 6, 7],
+                          fixed_opts=opts))
+    rep.bounds = {'cases': [BC.case_name(c) for c in cases]}
+    rep.assumptions += BC.COMMON_ASSUMPTIONS + ['the literal JSON and Snappy byte encodings are modelled, not decoded']
+    BC.run_cases(rep, prog, cases, dl, 'C13', 'everything a fault-free backup writes conforms to doc/format.md (independent reading of the store)')
+    naming_functions(rep, prog)
+
+
+def naming_functions(rep, prog):
+    """hunk_relpath / subdir_relpath / BandId::to_string / block_relpath on concrete boundary numbers vs the documented names."""
+    from .interp import Explorer, Stats
+    from .values import Agg, Ref
+    from .harness import arch as A
+    bad = []
+    nums = [0, 1, 9, 10, 9999, 10000, 10001, 99999, 123456789, 999999999, 1000000000, 4294967295]
+
+    def h(ex):
+        out = []
+        for n in nums:
+            out.append((n, ex.call('hunk_relpath', [n]), ex.call('index::subdir_relpath', [n])))
+        return out
+
+    def on_path(ex, o):
+        if o[0] != 'ok':
+            bad.append(str(o[1]))
+            return
+        for n, hp, sp in o[1]:
+            want_h = '%05d/%09d' % (n // 10000, n)
+            want_s = '%05d' % (n // 10000)
+            if hp != want_h or sp != want_s:
+                bad.append('hunk %d named %r / %r, documented %r / %r' % (n, hp, sp, want_h, want_s))
+    E = Explorer(prog, Stats())
+    E.run_all(h, on_path)
+    rep.functions |= E.stats.functions
+    st = E.stats.as_dict()
+    if E.inconclusive:
+        rep.inconclusive += ['naming: ' + x for x in E.inconclusive[:3]]
+        rep.add_obligation('hunk naming i/NNNNN/NNNNNNNNN', 'inconclusive', st)
+    elif bad:
+        rep.violation('format:hunk-naming', bad[0], '', True)
+        rep.add_obligation('hunk naming i/NNNNN/NNNNNNNNN', 'violated', st, bad[:3])
+    else:
+        rep.add_obligation('hunk naming i/NNNNN/NNNNNNNNN (boundary numbers, concrete)', 'holds', st)
+
+
+def check_C14(rep, prog, tier):
+    from . import backup_checks as BC
+    dl = tier_deadline(tier, 480, 3000)
+    shapes = [('F', [1]), ('FF', [1, 2]), ('FF', [1, 1])] if tier == 'quick' else \
+        [('F', [1]), ('FF', [1, 2]), ('FF', [1, 1]), ('FSF', [1, 0, 2]), ('FFF', [1, 2, 3])]
+    cases = _bcases(shapes, ['none'], prior='same', expect_no_block_writes=True)
+    cases += _bcases([('FF', [1, 2])] if tier == 'quick' else [('FF', [1, 2]), ('FF', [1, 1])], ['crash'])
+    rep.bounds = {'cases': [BC.case_name(c) for c in cases]}
+    rep.assumptions += BC.COMMON_ASSUMPTIONS
+    BC.run_cases(rep, prog, cases, dl, 'C14', 'unchanged tree: no block written and identical addresses; no stored block is ever written again, also when resuming after a crash')
+
+
+def check_C07(rep, prog, tier):
+    from . import backup_checks as BC
+    dl = tier_deadline(tier, 480, 3000)
+    shapes = [('FF', [1, 2])] if tier == 'quick' else [('FF', [1, 2]), ('FF', [1, 1]), ('FSF', [1, 0, 2])]
+    cases = _bcases(shapes, ['none', 'crash'] if tier == 'quick' else ['none', 'crash', 'empty_crash', 'fault'], prior='same')
+    cases += _bcases([('F', [1])], ['none', 'crash'], prior='built', prior_kinds='FF', prior_classes=[2, 3])
+    rep.bounds = {'cases': [BC.case_name(c) for c in cases]}
+    rep.assumptions += BC.COMMON_ASSUMPTIONS + ['two racing backups are not explored here']
+    BC.run_cases(rep, prog, cases, dl, 'C07', 'a backup (complete, interrupted, faulted or resumed) only adds files; the new band id is above every existing one')
+    band_ids(rep, prog)
+
+
+def band_ids(rep, prog):
+    """Band::create on any set of existing band directories (gaps, headless newest band): new id > every existing id."""
+    import itertools
+    from .interp import Explorer, Stats
+    from .values import Ref
+    from .harness import arch as A
+    bad = []
+    create = A.fn_by(prog, 'Band', None, 'create')
+
+    def mk(present):
+        def h(ex):
+            st, ar = A.new_archive(ex)
+            for b, state in present:
+                st.put_dir(A.band_name(b))
+                if state != 'nohead':
+                    A.put_head(ex, st, b)
+                if state == 'closed':
+                    A.put_tail(ex, st, b, 0)
+            st.put_dir('unrelated')
+            st.put_file('b00x1', A.Raw(b'x'))
+            st.mode = 'run'
+            r = A.run_async(ex, create, [Ref([ar], 0)])
+            return r, st
+        return h
+    paths = 0
+    inc = []
+    for n in (0, 1, 2, 3):
+        for ids in itertools.combinations([0, 1, 3, 7, 12], n):
+            for states in itertools.product(['nohead', 'open', 'closed'], repeat=n):
+                present = list(zip(ids, states))
+                E = Explorer(prog, Stats())
+
+                def on_path(ex, o, present=present):
+                    if o[0] != 'ok':
+                        bad.append('Band::create with %r: %s' % (present, o[1]))
+                        return
+                    r, st = o[1]
+                    if r.variant != 0:
+                        bad.append('Band::create with %r fails' % (present,))
+                        return
+                    new_id = r.fields[0].fields[0].fields[0]
+                    if any(new_id <= b for b, _ in present):
+                        bad.append('Band::create with %r chose id %s' % (present, new_id))
+                    if st.violations:
+                        bad.append('Band::create with %r: %r' % (present, st.violations))
+                E.run_all(mk(present), on_path)
+                paths += E.stats.paths
+                inc += E.inconclusive[:1]
+                rep.functions |= E.stats.functions
+    if inc:
+        rep.inconclusive += ['band ids: ' + x for x in inc[:3]]
+        rep.add_obligation('new band id above every existing id', 'inconclusive', {'paths': paths})
+    elif bad:
+        rep.violation('band-create:id-not-above-existing', bad[0], '', True)
+        rep.add_obligation('new band id above every existing id', 'violated', {'paths': paths}, bad[:3])
+    else:
+        rep.add_obligation('new band id above every existing id (all subsets of 5 ids x {headless, open, closed})', 'holds', {'paths': paths})
+
+
+CHECKS = {'C11': check_C11, 'C12': check_C12, 'C08': check_C08, 'C05': check_C05, 'C03': check_C03, 'C04': check_C04,
+          'C13': check_C13, 'C14': check_C14, 'C07': check_C07}
 
 
 def main():
